@@ -302,6 +302,8 @@ static int getTypeId(Type *ty) {
     return ty->is_unsigned ? U16 : I16;
   case TY_INT:
     return ty->is_unsigned ? U32 : I32;
+  case TY_ENUM:
+    return I32;
   case TY_LONG:
     return ty->is_unsigned ? U64 : I64;
   case TY_FLOAT:
